@@ -588,10 +588,9 @@ func sigKey(c *Case) string {
 	return c.Cause
 }
 
-// setupErrorEnabled: the Setup-failure cause makes MemoryBackend.Terminate
-// panic on the unrepaired tree (finding F11, property C14); it is enumerated
-// once that is repaired.
-const setupErrorEnabled = false
+// setupErrorEnabled: the Setup-failure cause made MemoryBackend.Terminate
+// panic before repo commit 8fa49dd (finding F11, found by the C14 check).
+const setupErrorEnabled = true
 
 func TestReplay(t *testing.T) {
 	var c Case
